@@ -144,3 +144,34 @@ func VerifHarness_C20_StopWords() {
 		verifReach("nonempty")
 	}
 }
+
+// concrete re-spellings, interior capitals included (GitHub, PowerShell): same answer as lower case
+func VerifHarness_C20_Respellings() {
+	mk := func(cmd, desc string) Command {
+		c := Command{Command: cmd, Description: desc}
+		vFill(&c)
+		return c
+	}
+	db := &Database{Commands: []Command{mk("gh repo clone", "clone a github repository"), mk("pwsh", "start powershell"), mk("ipconfig", "show ip address"), mk("zz", "yy")}}
+	db.BuildUniversalIndex()
+	db.buildTFIDFSearcher()
+	sp := [][]string{
+		{"github repository", "GitHub repository", "GITHUB Repository", "gitHub rePository"},
+		{"powershell", "PowerShell", "POWERSHELL", "powerShell"},
+		{"show ip address", "show IP address", "Show Ip ADDRESS", "show iP address"},
+	}[verifIntRange("query", 0, 2)]
+	o := SearchOptions{Limit: 5, UseNLP: verifBool("nlp"), UseFuzzy: true, FuzzyThreshold: -30, AllPlatforms: true}
+	a := db.SearchUniversal(sp[0], o)
+	b := db.SearchUniversal(sp[verifIntRange("spelling", 1, 3)], o)
+	verifAssert(len(a) == len(b), "C20: a re-cased query returns the same number of results")
+	if len(a) == len(b) {
+		for k := range a {
+			verifAssert(a[k].Command == b[k].Command, "C20: a re-cased query returns the same commands in the same order")
+			verifAssert(c03SameFloat(a[k].Score, b[k].Score), "C20: a re-cased query returns the same scores")
+		}
+	}
+	verifReach("compared")
+	if len(a) > 0 {
+		verifReach("nonempty")
+	}
+}
